@@ -34,6 +34,8 @@ func (lp *loadedProgram) harnessFn(name string) *ssa.Function {
 	return fn
 }
 
+func (lp *loadedProgram) hasHarness(name string) bool { return lp.main.Func(name) != nil }
+
 func repoDir() string {
 	if d := os.Getenv("VERIF_REPO"); d != "" {
 		return d
@@ -81,6 +83,15 @@ func harnessOverlay(pkgDir, mode string) (map[string][]byte, []string, error) {
 				break
 			}
 		}
+		stale := false
+		for _, sf := range staleHarness[pkgDir] {
+			if sf == "zz_verif_"+e.Name() {
+				stale = true
+			}
+		}
+		if stale {
+			continue
+		}
 		dst := filepath.Join(repoDir(), pkgDir, "zz_verif_"+e.Name())
 		ov[dst] = src
 		names = append(names, filepath.Join(hdir, e.Name()))
@@ -101,31 +112,61 @@ func harnessOverlay(pkgDir, mode string) (map[string][]byte, []string, error) {
 	return ov, names, nil
 }
 
+// staleHarness records harness files that no longer compile against the tree under test
+// (they refer to unexported identifiers that a refactoring renamed or removed). Such files are
+// left out and their harnesses reported as not run - never as a violation.
+var staleHarness = map[string][]string{} // pkgDir -> harness source files dropped
+
 func loadProgram(pkgDir string) (*loadedProgram, error) {
 	ov, names, err := harnessOverlay(pkgDir, "sym")
 	if err != nil {
 		return nil, err
 	}
-	cfg := &packages.Config{
-		Mode:    packages.LoadAllSyntax,
-		Dir:     repoDir(),
-		Overlay: ov,
-		Env:     append(os.Environ(), "GOFLAGS=-mod=mod", "GOPROXY=off", "GOSUMDB=off", "GOTOOLCHAIN=local", "CGO_ENABLED=0"),
-	}
-	initial, err := packages.Load(cfg, "./"+pkgDir)
-	if err != nil {
-		return nil, err
-	}
-	nerr := 0
-	packages.Visit(initial, nil, func(p *packages.Package) {
-		for _, e := range p.Errors {
-			// bodyless harness declarations are fine for go/types; anything else is an error
-			fmt.Fprintf(os.Stderr, "load error: %v\n", e)
-			nerr++
+	var initial []*packages.Package
+	for attempt := 0; ; attempt++ {
+		cfg := &packages.Config{
+			Mode:    packages.LoadAllSyntax,
+			Dir:     repoDir(),
+			Overlay: ov,
+			Env:     append(os.Environ(), "GOFLAGS=-mod=mod", "GOPROXY=off", "GOSUMDB=off", "GOTOOLCHAIN=local", "CGO_ENABLED=0"),
 		}
-	})
-	if nerr > 0 {
-		return nil, fmt.Errorf("%d errors loading %s (does /repo build?)", nerr, pkgDir)
+		initial, err = packages.Load(cfg, "./"+pkgDir)
+		if err != nil {
+			return nil, err
+		}
+		nerr := 0
+		badFiles := map[string]bool{}
+		var msgs []string
+		packages.Visit(initial, nil, func(p *packages.Package) {
+			for _, e := range p.Errors {
+				nerr++
+				msgs = append(msgs, e.Error())
+				// position "file:line:col"
+				pos := e.Pos
+				if k := strings.Index(pos, ":"); k > 0 {
+					f := pos[:k]
+					if _, isHarness := ov[f]; isHarness && !strings.HasSuffix(f, "zz_verif_nondet.go") {
+						badFiles[f] = true
+					}
+				}
+			}
+		})
+		if nerr == 0 {
+			break
+		}
+		if len(badFiles) == 0 || attempt > 6 {
+			for _, m := range msgs {
+				fmt.Fprintf(os.Stderr, "load error: %v\n", m)
+			}
+			return nil, fmt.Errorf("%d errors loading %s (does /repo build?)", nerr, pkgDir)
+		}
+		// drop the harness files that do not compile and try again (other files may depend on them:
+		// the loop repeats until what is left compiles)
+		for f := range badFiles {
+			delete(ov, f)
+			staleHarness[pkgDir] = append(staleHarness[pkgDir], filepath.Base(f))
+			fmt.Fprintf(os.Stderr, "HARNESS-STALE %s does not compile against this tree and is left out: %s\n", filepath.Base(f), firstLine(strings.Join(msgs, "; ")))
+		}
 	}
 	prog, pkgs := ssautil.AllPackages(initial, ssa.InstantiateGenerics)
 	prog.Build()
